@@ -72,9 +72,37 @@ func seqText(ss []SeqStmt) string {
 // and the EQU values it names (no $, ALIGNB, labels or branches).
 func genIndepStmt(t *rapid.T, mode int, equs [][2]string) SeqStmt {
 	k := rapid.IntRange(0, 9).Draw(t, "ik")
+	// programs that define a non-numeric EQU use their names three times as often (the interesting cases
+	// need at least two uses of the same name in the whole program)
+	if k >= 7 && len(equs) > 0 {
+		for _, e := range equs {
+			if sem.RegBits(e[1]) != 0 || strings.HasPrefix(e[1], "\"") || strings.HasPrefix(e[1], "[") {
+				k = 0
+			}
+		}
+	}
 	switch {
 	case k == 0 && len(equs) > 0:
 		e := equs[rapid.IntRange(0, len(equs)-1).Draw(t, "ie")]
+		if bits := sem.RegBits(e[1]); bits != 0 || strings.HasPrefix(e[1], "\"") || strings.HasPrefix(e[1], "[") {
+			// an EQU that stands for a register, a string or a memory operand (nothing to fold): every use must expand alike
+			var text string
+			switch {
+			case strings.HasPrefix(e[1], "\""):
+				text = fmt.Sprintf("DB %s,%d", e[0], rapid.IntRange(0, 9).Draw(t, "isv"))
+			case strings.HasPrefix(e[1], "["):
+				text = fmt.Sprintf(rapid.SampledFrom([]string{"MOV AX,%s", "MOV %s,CX", "ADD DX,%s", "MOV BL,%s"}).Draw(t, "imt"), e[0])
+			default:
+				other := regsOf(bits)[rapid.IntRange(0, 7).Draw(t, "iar")]
+				tmpl := rapid.SampledFrom([]string{"MOV " + other + ",%s", "MOV %s," + other, "ADD %s,1", "XOR %s,%s", "PUSH %s"}).Draw(t, "iat")
+				text = strings.ReplaceAll(tmpl, "%s", e[0])
+			}
+			r := asm.Assemble(sem.Header(mode) + e[0] + "\tEQU\t" + e[1] + "\n\t" + text + "\n")
+			if asm.Diagnosed(r, asm.Baseline(sem.Header(mode))) || len(r.Out) == 0 {
+				return SeqStmt{"NOP", "noparam"}
+			}
+			return SeqStmt{text, "equ.alias"}
+		}
 		reg := regsOf(rapid.SampledFrom([]int{8, 16, 32}).Draw(t, "ib"))[rapid.IntRange(0, 7).Draw(t, "ir")]
 		op := rapid.SampledFrom([]string{"MOV", "ADD", "CMP", "AND"}).Draw(t, "iop")
 		// the name alone, or inside an expression / a memory operand / a data directive
@@ -131,7 +159,21 @@ func checkC14(c ConcatCase) Verdict {
 	base := asm.Baseline(dirs)
 	rw := asm.Assemble(whole)
 	if asm.Diagnosed(rw, base) {
-		v.Skip = "diagnosed: " + asm.DiagClass(rw, base)
+		// the whole is diagnosed: then some part alone must be too (a statement that assembles cleanly on
+		// its own may not be refused because of unrelated neighbours)
+		if rw.Panic != "" {
+			v.Skip = "panic (C13 decides)"
+			return v
+		}
+		for i, s := range c.Seqs {
+			r := asm.Assemble(c.headerFor(c.effMode(i)) + seqText(s))
+			if asm.Diagnosed(r, asm.Baseline(sem.Header(c.effMode(i)))) {
+				v.Skip = "diagnosed: " + asm.DiagClass(rw, base)
+				return v
+			}
+		}
+		v.Fail = fmt.Sprintf("every part assembles without diagnostic on its own, but the whole program is diagnosed (%s)\n--- whole ---\n%s", asm.DiagClass(rw, base), whole)
+		v.Sig = "C14|whole-diagnosed"
 		return v
 	}
 	var cat []byte
@@ -204,13 +246,17 @@ func checkC14(c ConcatCase) Verdict {
 
 var propC14 = &Prop[ConcatCase]{
 	ID:   "C14",
-	Rule: "two or three label-free, position-independent statement sequences (instruction forms of C01, memory forms of C02, data directives, RESB, INT, far JMP, uses of shared EQU names alone and inside expressions, memory operands, data directives and RESB; no $, ALIGNB, labels, relative branches) under one mode header (one case in four: a [BITS n] directive in front of some parts, so the mode in force changes between them); oracle: out(H;A;B;C) = out(H;A) || out(H;B) || out(H;C), every part assembled alone under the mode in force for it, and for one case in fifty (with parts of 6..14 statements) also = the parts assembled by the gosk binary, one fresh process each; non-trivial = at least two non-empty parts with statements of different form classes; distinct by source text",
+	Rule: "two or three label-free, position-independent statement sequences (instruction forms of C01, memory forms of C02, data directives, RESB, INT, far JMP, uses of shared EQU names (numbers, and names standing for a register, a string or a memory operand) alone and inside expressions, memory operands, data directives and RESB; no $, ALIGNB, labels, relative branches) under one mode header (one case in four: a [BITS n] directive in front of some parts, so the mode in force changes between them); oracle: the whole is diagnosed only if some part alone is, and out(H;A;B;C) = out(H;A) || out(H;B) || out(H;C), every part assembled alone under the mode in force for it, and for one case in fifty (with parts of 6..14 statements) also = the parts assembled by the gosk binary, one fresh process each; non-trivial = at least two non-empty parts with statements of different form classes; distinct by source text",
 	Gen: func(t *rapid.T) ConcatCase {
 		c := ConcatCase{Mode: rapid.SampledFrom([]int{0, 16, 32}).Draw(t, "mode")}
 		used := map[string]bool{}
 		for i := rapid.IntRange(0, 2).Draw(t, "nequ"); i > 0; i-- {
 			v := rapid.SampledFrom([]int64{0, 1, 0x7f, 0x80, 0xff, 0x100, 0x7fff, 0x12345}).Draw(t, "equv")
-			c.Equs = append(c.Equs, [2]string{genName(t, "equn", used), renderImm(v, 1)})
+			body := renderImm(v, 1)
+			if rapid.IntRange(0, 3).Draw(t, "equalias") == 0 {
+				body = rapid.SampledFrom([]string{"BX", "AL", "ECX", "SI", "DH", "EAX", "\"ab\"", "\"x, y\"", "[BX]", "[0x1234]", "[ESI+4]"}).Draw(t, "equaliasb")
+			}
+			c.Equs = append(c.Equs, [2]string{genName(t, "equn", used), body})
 		}
 		// a fresh process costs ~0.2 s: one case in fifty, with longer parts
 		c.Fresh = rapid.IntRange(0, 49).Draw(t, "fresh") == 23 // an interior value: rapid favours the ends of a range
